@@ -16,7 +16,8 @@ EXPLANATION = ("C twins of the Rust rules, decided on clang's typed, macro-expan
                "in the dispatcher sits under the matching `features &` test with its arguments passed through, absent when "
                "BLAKE3_NO_<ISA> is defined, simd_degree's chain equals hash_many's and stays <= MAX_SIMD_DEGREE, the "
                "xof_many fallback loops counter+i; R1c blake3_portable.c g/round_fn/compress_pre and feed-forward against "
-               "the spec terms. Byte-exact output and the update loop's subtree arithmetic are NOT decided.")
+               "the spec terms; K4c/K5c lane counters and transposed state rows of the C intrinsics kernels; PB the caller-buffer "
+               "budget discipline of c/blake3.c (see C07). Byte-exact output and the update loop's subtree arithmetic are NOT decided.")
 TRUSTED = ["clang 14 parser / Sema (JSON AST)", "engines/cfront/cast.py mini-IR", "engines/rules/csym.py term evaluation", "spec model"]
 ASSUMPTIONS = ["memcpy/memset write exactly their destination argument", "x86-64 configuration of blake3_impl.h (MAX_SIMD_DEGREE 16)"]
 TECHNIQUE = "clang-AST rules: known-bits dataflow, field write sets, guard nesting, table comparison, symbolic round evaluation"
@@ -29,3 +30,5 @@ def run(ctx):
     ctx.run_rule("R1c", r_round.rule_R1_c)
     ctx.run_rule("K4c", r_round.rule_K4_c)
     ctx.run_rule("K5c", r_round.rule_K5_c)
+    import r_cbudget
+    ctx.run_rule("PB", r_cbudget.rule_PB)
